@@ -412,3 +412,8 @@ func (p *Program) fieldStoresByID(id string) []*ssa.Store {
 	}
 	return p.fieldStores[id]
 }
+
+// ResolveFuncValue: the module functions a function-typed value may denote.
+func (p *Program) ResolveFuncValue(v ssa.Value) []*ssa.Function {
+	return p.resolveFuncValue(v, 0, map[ssa.Value]bool{})
+}
